@@ -224,7 +224,8 @@ func (f *StreamForwarder) forwardAcks(wg *sync.WaitGroup) {
 		defer f.logger.Info("proxyStreamForwarder forwardAck finished")
 		f.shutdownChan.Shutdown()
 		var err error
-		closeSent := make(chan struct{})
+		// buffered: if the guard below expires first nobody receives any more, and the helper must still be able to finish
+		closeSent := make(chan struct{}, 1)
 		go func() {
 			err = f.sourceStreamClient.CloseSend()
 			closeSent <- struct{}{}
